@@ -143,21 +143,22 @@ def check_tables(sel):
 
 # ---- stage 2: random well-formed lists ---------------------------------------------------------
 class ListCase(object):
-    def __init__(self, sel, ids, history=None):
+    def __init__(self, sel, ids, history=None, extra=False):
         self.sel, self.ids, self.history = sel, ids, history or []
+        self.extra = extra         # evaluate in a process that holds in-stream table definitions (stage 6)
 
     def key(self):
-        return hashlib.sha1(repr((self.sel, self.ids, self.history)).encode()).hexdigest()[:20]
+        return hashlib.sha1(repr((self.sel, self.ids, self.history, self.extra)).encode()).hexdigest()[:20]
 
     def summary(self):
         return {'table_selection': list(self.sel), 'descriptors': ['%06d' % i for i in self.ids]}
 
     def to_json(self):
-        return {'kind': 'list', 'sel': list(self.sel), 'ids': self.ids, 'history': self.history}
+        return {'kind': 'list', 'sel': list(self.sel), 'ids': self.ids, 'history': self.history, 'extra': self.extra}
 
     @staticmethod
     def from_json(d):
-        return ListCase(tuple(d['sel']), list(d['ids']), [list(h) for h in d.get('history') or []])
+        return ListCase(tuple(d['sel']), list(d['ids']), [list(h) for h in d.get('history') or []], bool(d.get('extra')))
 
 
 OPS = [201130, 201000, 202129, 202000, 204008, 204000, 205004, 206012, 207002, 207000, 208016, 208000, 221003, 222000,
@@ -276,6 +277,81 @@ def check_list(case):
     if got_flat.ok and got_flat.value != rtree.expand(nodes):
         out.fail('expanded id list of the template differs from the direct expansion')
     return out
+
+
+# ---- stage 6: the same once the process holds in-stream table definitions ------------------------------------------
+# After a table-definition message has been read (C20) every template is post-processed for the NCEP style of sequence
+# (tables._fix_ncep_descriptors).  The construction rule is the same: the stage registers one extra element that nothing
+# uses (the public TableGroupCacheManager.add_extra_entries, as the stream scanner does) in a forked child and repeats the
+# list and Table D comparisons there.
+EXTRA_B = {'063250': ['VERIF EXTRA ELEMENT', 'NUMERIC', 0, 0, 8, '', 0, 0]}
+
+
+def _with_extra_entries(fn, *args):
+    TableGroupCacheManager.invalidate()
+    TableGroupCacheManager.add_extra_entries(dict(EXTRA_B), {})
+    return fn(*args)
+
+
+def _list_outcome(case):
+    try:
+        out = check_list(case)
+    except Reject as e:
+        return ('reject', str(e))
+    return ('ok', out.classes, out.nontrivial, out.failures)
+
+
+def gen_list_extra(ch):
+    c = gen_list(ch)
+    c.extra = True
+    return c
+
+
+def check_list_extra(case):
+    from vlib import forkexec
+    r = forkexec.run(_with_extra_entries, _list_outcome, case)
+    if r[0] == 'reject':
+        raise Reject(r[1])
+    out = Outcome()
+    out.classes = ['after_in_stream_definitions'] + ['extra_' + c for c in r[1]]
+    out.nontrivial = r[2]
+    out.failures = [('after in-stream table definitions: ' + c, d) for c, d in r[3]]
+    return out
+
+
+def _sequence_templates(sel):
+    centre, sub, mv, lv = sel
+    rt = rtables.load_for(0, centre, sub, mv, lv)
+    g = sut_group(0, centre, sub, mv, lv)
+    fails, n = [], 0
+    cache = {}
+    for sid in sorted(rt.D):
+        try:
+            nodes = rtree.parse([sid], rt, strict=True, _seq_cache=cache)
+        except IllFormed:
+            continue
+        n += 1
+        o = sut.call(g.template_from_ids, sid)
+        if not o.ok:
+            fails.append(('template_from_ids of one sequence raised %s@%s' % (o.exc_type, o.frame), {'id': sid, 'error': o.msg}))
+            continue
+        dff = first_shape_diff(sut_shape(o.value.members), rtree.shape(nodes))
+        if dff:
+            fails.append(('template of one Table D sequence differs from the FM-94 construction',
+                          {'id': sid, 'at': dff[0], 'what': dff[1], 'got': dff[2], 'expected': dff[3]}))
+        elif list(o.value.original_descriptor_ids) != [sid]:
+            fails.append(('flattening the template of one sequence does not return the sequence',
+                          {'id': sid, 'got': list(o.value.original_descriptor_ids)[:6]}))
+        if len(fails) >= 6:
+            break
+    return n, fails
+
+
+def check_sequences_extra(sel):
+    from vlib import forkexec
+    n, fails = forkexec.run(_with_extra_entries, _sequence_templates, sel, _timeout=600)
+    n0, fails0 = forkexec.run(_sequence_templates, sel, _timeout=600)
+    return {'sel': list(sel), 'n': n + n0, 'fails': [('after in-stream table definitions: ' + c, d) for c, d in fails] + fails0}
 
 
 def _walk(shape):
@@ -523,7 +599,7 @@ def check_any(case):
     if isinstance(case, UnknownCase):
         return check_unknown(case)
     if isinstance(case, ListCase):
-        return check_list(case)
+        return check_list_extra(case) if case.extra else check_list(case)
     return check_fallback(case)
 
 
@@ -592,7 +668,16 @@ def run(tier, seed):
     # stage 5
     n = 400 if tier == 'quick' else 8000
     runner.run_generated(rep, gen_fallback, check_fallback, n, workers, stage='fallback decode')
-    rep.required_classes = ['list_nesting_4', 'list_with_undefined_id', 'list_X_ge_40', 'unknown_in_221', 'unknown_fixed_rep',
+    # stage 6
+    n = 250 if tier == 'quick' else 6000
+    runner.run_generated(rep, gen_list_extra, check_list_extra, n, workers, stage='lists after in-stream definitions')
+    seq_sel = [(0, 0, 33, 0), (98, 0, 40, 101)] if tier == 'quick' else table_sel
+    for r in runner.run_enumerated(seq_sel, check_sequences_extra, workers, chunk=1):
+        rep.add_bulk(r['n'], r['n'], {'sequence_templates_with_and_without_in_stream_definitions': r['n']})
+        for clause, detail in r['fails']:
+            rep.add_failure('sequence templates: ' + clause, dict(detail, table_selection=r['sel']), {'kind': 'sequence_templates', 'sel': r['sel']},
+                            stage='sequence templates')
+    rep.required_classes = ['after_in_stream_definitions', 'list_nesting_4', 'list_with_undefined_id', 'list_X_ge_40', 'unknown_in_221', 'unknown_fixed_rep',
                             'unknown_delayed_rep', 'unknown_after_rep', 'unknown_nested_rep', 'unknown_sequence', 'unknown_replication_factor',
                             'selection_cell', 'table_d_entries']
     fuzz.run_structured(rep, 'checks.c14', gen_list, tier, funcname='fuzz_list', tag='lists')
@@ -604,8 +689,10 @@ def replay(path):
     with open(path) as f:
         d = json.load(f)
     c = d['case']
-    if c.get('kind') in ('tables', 'selection'):
-        if c['kind'] == 'tables':
+    if c.get('kind') in ('tables', 'selection', 'sequence_templates'):
+        if c['kind'] == 'sequence_templates':
+            fails = check_sequences_extra(tuple(c['sel']))['fails']
+        elif c['kind'] == 'tables':
             fails = check_tables(tuple(c['sel']))['fails']
         else:
             fails = check_selection(tuple(c['cell']))
